@@ -20,7 +20,7 @@ import (
 )
 
 type SolverStats struct {
-	Queries, Sat, Unsat, Unknown, Fallback, Errors, CacheHits int64
+	Queries, Sat, Unsat, Unknown, Fallback, Errors, CacheHits, ModelHits int64
 	TimeNS                                                   int64
 	ByBackend                                                sync.Map // name -> *int64
 }
@@ -244,7 +244,7 @@ func (s *Solver) askZ3(body string, names []string, vars []*Term, wantModel bool
 		s.restart()
 	}
 	var script strings.Builder
-	fmt.Fprintf(&script, "(set-option :timeout %d)\n(push)\n", timeoutMS)
+	fmt.Fprintf(&script, "(reset)\n(set-option :timeout %d)\n", timeoutMS)
 	script.WriteString(body)
 	script.WriteString("(check-sat)\n")
 	if _, err := io.WriteString(s.in, script.String()); err != nil {
@@ -260,7 +260,6 @@ func (s *Solver) askZ3(body string, names []string, vars []*Term, wantModel bool
 			out.Detail = res
 			res = s.readSexp()
 		}
-		io.WriteString(s.in, "(pop)\n")
 		out.Status = "unknown"
 		return out
 	}
@@ -285,7 +284,6 @@ func (s *Solver) askZ3(body string, names []string, vars []*Term, wantModel bool
 		out.Status = "unknown"
 		out.Detail = res
 	}
-	io.WriteString(s.in, "(pop)\n")
 	if s.dead {
 		out.Status = "unknown"
 	}
